@@ -71,7 +71,10 @@ class Parser:  # pylint: disable=too-many-public-methods
         -------
         An object of class expr.Expr describing the parsed AST.
         """
-        return self.expression()
+        expr = self.expression()
+        if not self.at_end():
+            raise ParseError(f"Unexpected '{self.peek().lexeme}' after the end of the formula.")
+        return expr
 
     def expression(self):
         return self.assignment()
